@@ -138,6 +138,12 @@ func splitForRepeats(r *fw.Rand, lf *gen.Leaf, v reflect.Value) ([]string, refle
 			return []string{lf.Text(v)}, v
 		}
 		sort.Slice(keys, func(i, j int) bool { return keys[i].String() < keys[j].String() })
+		if lf.Type.Elem().Kind() == reflect.String && r.Chance(40) {
+			// an early occurrence gives one key an older value; a later, larger occurrence restates it: the later one wins
+			first := reflect.MakeMap(lf.Type)
+			first.SetMapIndex(keys[0], reflect.ValueOf("superseded").Convert(lf.Type.Elem()))
+			return []string{lf.Text(first), lf.Text(v)}, v
+		}
 		var out []string
 		for _, k := range keys {
 			m := reflect.MakeMap(lf.Type)
@@ -300,6 +306,13 @@ func runC12(w *fw.Worker) {
 		}
 		witness := func() any {
 			return map[string]any{"package": pk.name, "custom_name_config": custom, "type": spec.Describe(), "template": fmt.Sprintf("%+v", tmplClone), "argv": argv}
+		}
+		if r.Chance(40) {
+			// elsewhere in the process the same struct type was registered earlier under the other naming configuration
+			if other, _, oerr := pk.build(!custom, tmpl.Interface(), nil); oerr == nil {
+				other.Value(context.Background(), dials.NewType(ptrType))
+			}
+			w.Count("cases_after_a_set_with_the_other_name_config", 1)
 		}
 		src, defs, err := pk.build(custom, tmpl.Interface(), argv)
 		if err != nil {
